@@ -363,6 +363,7 @@ var c13IsoProbes = []c13Iso{
 	{"exported array is immutable", "m := import(\"a\")\nm[0] = 2\n", map[string]string{"a": "export [1]\n"}, "run:not index-assignable: immutable-array"},
 	{"each evaluation runs the body afresh", "a := import(\"a\")\nb := import(\"a\")\nr := [a(), a(), b()]\n", map[string]string{"a": "n := 0\nexport func() { n += 1; return n }\n"}, "ok:r=[i1,i2,i1]"},
 	{"no export yields undefined", "m := import(\"a\")\nu := is_undefined(m)\n", map[string]string{"a": "x := 1\n"}, "ok:u=true"},
+	{"top-level return instead of export", "m := import(\"a\")\nok := is_undefined(m) || is_immutable_array(m)\n", map[string]string{"a": "r := [1, 2, 3]\nreturn r\n"}, "ok:ok=true"},
 	{"unknown module", "m := import(\"nope\")\n", map[string]string{"a": "export 1\n"}, "module 'nope' not found"},
 	{"empty module name", "m := import(\"\")\n", map[string]string{}, "empty module name"},
 }
